@@ -2,7 +2,7 @@
    This is what the OCaml driver calls; each command evaluates model functions on a case that the
    Python harness also runs on the rebuilt implementation. *)
 From OptreeModel Require Export Wire Flatten Unflatten Spec Ops Registry Pickle Accessor.
-From OptreeModel Require Ravel.
+From OptreeModel Require Ravel Dataclass.
 
 Definition bad : sexp := SL [SI 2].   (* undecodable input: a harness error, never a verdict *)
 
@@ -234,6 +234,18 @@ Definition cmd_ravel (leaves : list Ravel.arr) (v : list Z) (vd : Z) : sexp :=
       match Ravel.unravel chain_promote (fun _ _ x => x) leaves v vd with
       | Ravel.ROk l => SL (SI 0 :: map enc_arr l) | Ravel.RValueError => SL [SI 1] end].
 
+(* cmd 12: the field partition of an optree dataclass *)
+Definition dec_dfield (s : sexp) : option Dataclass.dfield :=
+  match s with
+  | SL [SI n; SI i; SI p] =>
+    Some {| Dataclass.fname := n; Dataclass.finit := negb (Z.eqb i 0); Dataclass.fnode := negb (Z.eqb p 0) |}
+  | _ => None
+  end.
+Definition cmd_dataclass (fs : list Dataclass.dfield) : sexp :=
+  SL [enc_bool (Dataclass.layout_ok fs);
+      SL (map (fun f => SI (Dataclass.fname f)) (Dataclass.children_fields fs));
+      SL (map (fun f => SI (Dataclass.fname f)) (Dataclass.metadata_fields fs))].
+
 Definition run (s : sexp) : sexp :=
   match s with
   | SL [SI 1; c; o] =>
@@ -290,6 +302,11 @@ Definition run (s : sexp) : sexp :=
     match omapM dec_arr leaves, omapM dec_Z v with
     | Some l, Some v' => cmd_ravel l v' vd
     | _, _ => bad
+    end
+  | SL [SI 12; SL fs] =>
+    match omapM dec_dfield fs with
+    | Some fs' => cmd_dataclass fs'
+    | None => bad
     end
   | _ => bad
   end.
